@@ -174,11 +174,32 @@ class C01(F.Spec):
                       {"tags": ["kind:" + kind, "corrupt:" + ckind, "chunks:" + style], "style": style, "ckind": ckind})
 
     # ---- direct monitor: the property itself on the implementation trace
+    def canon_impl(self, groups):
+        return [[x for x in g if not x.startswith("READ ")] for g in groups]
+
     def monitor(self, case, groups, rc, err):
         fs = []
         if rc != 0:
             fs.append(F.Finding("crash", "implementation aborted (rc=%s): %s" % (rc, err[-600:])))
             return fs
+        # buffered input: bytes the protocol layer took in minus the frames it handed on (judged while nothing was dropped or
+        # reported): it has to stay below the fixed receive limit
+        LIMIT = 2048
+        inbuf, stop = 0, False
+        for g in case.meta.get("raw_impl") or []:
+            for x in g:
+                if x.startswith("READ "):
+                    inbuf += int(x.split()[1])
+                elif x.startswith("DELIVER "):
+                    inbuf -= 23 + int(x.split()[4])
+                elif x == "RESTART" or x.startswith("LOG "):
+                    stop = True
+            if stop:
+                break
+            if inbuf >= LIMIT:
+                fs.append(F.Finding("buffered-above-limit", "%d bytes are buffered in the protocol layer (limit %d) and no error was "
+                                    "reported" % (inbuf, LIMIT)))
+                break
         true_stream, accepted = b"", b""
         delivered, dropped, dead = [], False, False
         after_dead_delivery = False
